@@ -97,6 +97,10 @@ impl Array6 {
         self.estimator.hip_accum()
     }
 
+    pub(super) fn is_out_of_order(&self) -> bool {
+        self.estimator.is_out_of_order()
+    }
+
     /// Set value in a slot (6-bit value)
     ///
     /// Uses read-modify-write on 16-bit window to preserve surrounding bits.
